@@ -10,7 +10,7 @@ RULE = ("cases: (parser, string) and (printer, size, SI); streams: every documen
         "documentation examples, powers of ten, leading zeros, 4300/4301 digits) x whitespace x letter case; calendar days "
         "around month ends, leap and century years, years 1 and 9999; a separate malformed stream (single-character edits of "
         "valid strings with ASCII and non-ASCII look-alikes, signs, fractions, underscores, trailing text, impossible days); "
-        "print-then-parse for all sizes 0..1100, the 1000^k / 1024^k boundaries, rounding ties and random sizes up to 2^90. "
+        "print-then-parse for the sizes 0..129 and 990..1039 (thorough: all of 0..4199), the 1000^k / 1024^k boundaries, rounding ties and random sizes up to 2^90. "
         "distinct = distinct (parser, string) or (size, SI); non-trivial = the parser accepts the string / the size is printed")
 META = {
     "title": "Configuration values parse to their documented meaning",
@@ -294,14 +294,16 @@ def gen_date(r, malformed):
     return s
 
 
-def big_number_cases():
+def big_number_cases(full):
+    """numbers around CPython's 4300-digit limit of int(); evaluating a 4300-digit number in Coq costs seconds, so the quick tier takes four"""
     out = []
-    for n in (MAXD - 1, MAXD, MAXD + 1, MAXD + 200):
+    for n in ((MAXD - 1, MAXD, MAXD + 1, MAXD + 200) if full else (MAXD, MAXD + 1)):
         ds = "1" + "0" * (n - 1)
-        out.append(("duration", ds + "s"))
         out.append(("duration", " " + "0" * n + " days "))
-        out.append(("size", ds + "K"))
         out.append(("size", "0" * (n - 1) + "7 MiB"))
+        if full:
+            out.append(("duration", ds + "s"))
+            out.append(("size", ds + "K"))
     return out
 
 
@@ -367,7 +369,7 @@ def run(ctx):
                                     "2K", "2kb", "2KiB", "9EiB", "1I", "1iB", "12 cubits", "1 BB", "fhtagn", "1K\n", "1k\u0131b", "\u0661\u0660\u0660"]]
     fixed += [("date", s) for s in ["2009-01-16", "2008-02-02", "2007-12-25", "2010-02-21", "2009-03-18", "2009-02-30", "2009-02-29", "2008-02-29", "1900-02-29",
                                     "2000-02-29", "0001-01-01", "9999-12-31", "1969-12-31", "1970-01-01", "2009-01-16 10:20:30", "2009-01-00", "2009-13-01"]]
-    fixed += big_number_cases()
+    fixed += big_number_cases(ctx.tier == "thorough" or ctx.search)
     for fn, s in fixed:
         judge(ctx, fn, s, impl, terms, info)
     ctx.sample({"fn": "duration", "input": "60 days", "value": call(impl["duration"], "60 days")})
@@ -401,7 +403,7 @@ def run(ctx):
 
 # ---- abbreviate_space and print-then-parse ----
 def size_stream(ctx):
-    out = list(range(0, ctx.n(1101, 4200)))
+    out = list(range(0, 4200)) if (ctx.tier == "thorough" or ctx.search) else list(range(0, 130)) + list(range(990, 1040))
     for U in (1000, 1024):
         for k in range(1, 8):
             for delta in (-2, -1, 0, 1, 2):
@@ -410,7 +412,7 @@ def size_stream(ctx):
                 out.append(U ** k * mult // 1000)
                 out.append(U ** k * mult // 1000 + 1)
     out += [2 ** 53 - 1, 2 ** 53, 2 ** 53 + 1, 2 ** 64, 10 ** 21, 10 ** 30, 2 ** 90 + 12345]
-    m = ctx.n(500, 8000)
+    m = ctx.n(350, 8000)
     for i in range(m):
         r = ctx.rng("size", i)
         out.append(r.getrandbits(r.choice([11, 12, 16, 20, 24, 30, 31, 32, 40, 50, 53, 54, 60, 63, 64, 70, 90])))
